@@ -193,7 +193,7 @@ func c05Decoder(c *Ctx, p *Prog, dec *ssa.Function, r1, r2, r3 string) {
 				bad = "box operand is not box[:n]"
 			} else {
 				rc, idx := callOf(unspill(bs.High))
-				if rc == nil || p.CalleeID(rc.Common()) != "io.ReadFull" || idx != 0 || bufObjKey(rc.Common().Args[1]) != bufObjKey(bs) {
+				if rc == nil || !p.isReadFull(rc) || idx != 0 || bufObjKey(rc.Common().Args[1]) != bufObjKey(bs) {
 					bad = "box length is not the count io.ReadFull returned for the same buffer"
 				}
 			}
@@ -472,7 +472,7 @@ func lockstep(c *Ctx, p *Prog, rule string, fn *ssa.Function, typ string, isDeco
 			ob.HoldNT("all continuing paths store nextLength")
 		}
 		// all-or-nothing reads from the frame buffer
-		for i, rf := range p.CallsIn(fn, "io.ReadFull") {
+		for i, rf := range p.ReadFullsIn(fn) {
 			ob := c.Obl(rule, fmt.Sprintf("%s#all-or-nothing-read#%d", fk, i+1), "bytes are taken from the frame buffer only when the whole field is available (Len() was compared with the amount to read): a partial field is never consumed").At(p.InstrPos(rf))
 			okG := false
 			for _, f := range ff.NC(rf.Block()) {
